@@ -41,6 +41,10 @@ static int stub_cmp(const void* a, const void* b) {
         if ((unsigned long)j == G.p && G.has_zero) return 0;
         return -1;
     }
+#ifdef LINEAR_FROM
+    /* quick tier, tail of the list: entries below LINEAR_FROM compare concretely non-zero */
+    if (j < LINEAR_FROM) return 1;
+#endif
     if (G.has_zero && (unsigned long)j == G.p) return 0;
     return ((G.signs >> (j & 31)) & 1) ? 1 : -1;
 }
@@ -53,6 +57,9 @@ void t2_search(void) {
     if (G.has_zero) VASSUME(G.p < NENT);
 #ifdef SORTED
     VASSUME(G.sorted == (SORTED != 0));
+#endif
+#ifdef LINEAR_FROM
+    VASSUME(!G.has_zero || G.p >= LINEAR_FROM);     /* a match among the last entries, or none */
 #endif
 #ifdef LINEAR_PREFIX
     /* quick tier: the linear scan is followed only up to a match among the first
